@@ -304,6 +304,36 @@ Definition run_expiry (a : sx) : sx :=
   | _ => sx_err "expiry"
   end.
 
+(* c14.entry: the same Sendables through one of the sending entry points
+   (0 Send, 1 SendV2, 2 RawSend, 3 RawSendV2, 4 CreateMessageBody) of a wallet on a
+   non-existent account: (ver pk opts entry seqno valid sendables seed) ->
+   (wallet-id seqno ((cell mode) ...) expiry|'default) | 'err.
+   Send / SendV2 take seqno 0 from the account state and a clock-dependent expiry. *)
+Definition run_entry (a : sx) : sx :=
+  match a with
+  | SL (SN ver :: SBytes pk :: opts :: SN entry :: SN seqno :: SZ valid :: SL sendables :: _) =>
+      match ver_of_N ver, transfers_of_sx sendables with
+      | None, _ => SA "err"
+      | Some v, Some ts =>
+          let sign (_ : unit) (_ : bytes) := zeros 512 in
+          let by_send := (entry <? 2)%N in
+          out_res (fun d => SL [SN (d_id d); SN (d_seqno d); sx_of_msgs (d_msgs d);
+                                if by_send then SA "default" else SN (d_valid d)])
+            (do w <- new_wallet (bytes_to_bits pk) v (opts_of_sx opts);
+             do ts' <- ts;
+             do ms <- internal_msgs ts';
+             if (max_messages v <? List.length ms)%nat && negb (N.eqb entry 4) then Err EWallet else
+             do body <- create_body unit xhash sign w tt ms (if by_send then 0%N else seqno) valid op_signed_external 0;
+             match v with
+             | V5Beta => decode_v5beta body | V5R1 => decode_v5r1 body
+             | V4R1 | V4R2 => decode_v4 body | V3R1 | V3R2 => decode_v3 body
+             | HLV2R2 => decode_hl body | _ => Err EWallet
+             end)
+      | _, _ => sx_err "entry args"
+      end
+  | _ => sx_err "entry"
+  end.
+
 Definition run (name : string) (a : sx) : sx :=
   let is x := String.eqb name x in
   if is "c14.send" then run_send a
@@ -312,4 +342,5 @@ Definition run (name : string) (a : sx) : sx :=
   else if is "c14.v5verify" then run_v5verify a
   else if is "c14.decode" then run_decode a
   else if is "c14.expiry" then run_expiry a
+  else if is "c14.entry" then run_entry a
   else sx_err "unknown case kind".
